@@ -21,7 +21,7 @@ use serde_json::{json, Value};
 use std::net::{Ipv4Addr, Ipv6Addr};
 use std::str::FromStr;
 
-fn family(fl: Flavour) -> AddressFamily {
+pub(crate) fn family(fl: Flavour) -> AddressFamily {
     if fl == Flavour::V4 {
         AddressFamily::Ipv4
     } else {
@@ -33,7 +33,7 @@ pub fn observe_ip(set: &IpBlocks) -> Obs {
     set.iter().map(|b| (b.min().to_bits(), b.max().to_bits(), matches!(b, IpBlock::Range(_)))).collect()
 }
 
-fn lib_block(fl: Flavour, lo: u128, hi: u128, mode: u64) -> IpBlock {
+pub(crate) fn lib_block(fl: Flavour, lo: u128, hi: u128, mode: u64) -> IpBlock {
     let (a, b) = fl.embed(lo, hi);
     let (min, max) = (Addr::from_bits(a), Addr::from_bits(b));
     match mode {
@@ -61,7 +61,7 @@ fn addr_text(fl: Flavour, v: u128) -> String {
 /// One text item per block in the library's syntax, written by the harness
 /// (std address formatting). A reversed block (lo > hi) is always written in
 /// range syntax.
-fn ip_text_items(fl: Flavour, blocks: &[(u128, u128)], rng: &mut Rng) -> Vec<String> {
+pub(crate) fn ip_text_items(fl: Flavour, blocks: &[(u128, u128)], rng: &mut Rng) -> Vec<String> {
     let mut parts = Vec::new();
     for (lo, hi) in blocks {
         if lo > hi {
@@ -508,7 +508,7 @@ fn ip_entry_sweep(ctx: &mut Ctx, rng: &mut Rng, fl: Flavour) {
     ctx.drain_chain_hook(|| json!({"flavour": name, "entry-sweep": blocks_json(&blocks)}));
 }
 
-fn ip_construct(ctx: &mut Ctx, rng: &mut Rng, fl: Flavour, seq: &Seq) -> Option<IpCase> {
+pub(crate) fn ip_construct(ctx: &mut Ctx, rng: &mut Rng, fl: Flavour, seq: &Seq) -> Option<IpCase> {
     let model = fl.model(&seq.blocks);
     let blocks = seq.blocks.clone();
     let name = fl.name();
@@ -575,8 +575,12 @@ fn ip_construct(ctx: &mut Ctx, rng: &mut Rng, fl: Flavour, seq: &Seq) -> Option<
 /// Resources built with `IpResourcesBuilder`, spreading the blocks over
 /// several `blocks()` calls on the same builder (the result must be the union).
 pub fn builder_multi_call(ctx: &mut Ctx, rng: &mut Rng, fl: Flavour) {
-    use rpki::repository::resources::IpResourcesBuilder;
     let seq = sequence(fl, rng, 6);
+    builder_multi_call_seq(ctx, rng, fl, &seq);
+}
+
+pub(crate) fn builder_multi_call_seq(ctx: &mut Ctx, rng: &mut Rng, fl: Flavour, seq: &Seq) {
+    use rpki::repository::resources::IpResourcesBuilder;
     let model = fl.model(&seq.blocks);
     let calls = 1 + rng.usize_below(3);
     let mut builder = IpResourcesBuilder::new();
@@ -608,7 +612,7 @@ pub fn small_collect(ctx: &mut Ctx, fl: Flavour, blocks: &[(u128, u128)], model:
     }
 }
 
-fn ip_unary(ctx: &mut Ctx, c: &IpCase) {
+pub(crate) fn ip_unary(ctx: &mut Ctx, c: &IpCase) {
     let fl = c.fl;
     let name = fl.name();
     let blocks = &c.blocks;
@@ -811,7 +815,7 @@ fn size_class(a: &IntervalSet) -> &'static str {
     }
 }
 
-fn ip_pair(ctx: &mut Ctx, rng: &mut Rng, a: &IpCase, b: &IpCase) {
+pub(crate) fn ip_pair(ctx: &mut Ctx, rng: &mut Rng, a: &IpCase, b: &IpCase) {
     let fl = a.fl;
     let name = fl.name();
     let rel = relation(&a.model, &b.model);
@@ -1036,11 +1040,11 @@ fn ranges(ctx: &mut Ctx, rng: &mut Rng, fl: Flavour, n: u64) {
     }
 }
 
-fn as_from_model(m: &IntervalSet) -> AsBlocks {
+pub(crate) fn as_from_model(m: &IntervalSet) -> AsBlocks {
     AsBlocks::from_iter(m.iv.iter().map(|(a, b)| AsBlock::from((Asn::from_u32(*a as u32), Asn::from_u32(*b as u32)))))
 }
 
-fn json_set(v: &Value) -> Option<(IntervalSet, IntervalSet, IntervalSet)> {
+pub(crate) fn json_set(v: &Value) -> Option<(IntervalSet, IntervalSet, IntervalSet)> {
     let a = AsBlocks::from_str(v.get("asn")?.as_str()?).ok()?;
     let v4 = Ipv4Blocks::from_str(v.get("ipv4")?.as_str()?).ok()?;
     let v6 = Ipv6Blocks::from_str(v.get("ipv6")?.as_str()?).ok()?;
